@@ -517,10 +517,15 @@ func classifyUpdate(op Op, mark func(string)) {
 	}
 }
 
-func TestC13(t *testing.T) {
-	vprop.Run(t, vprop.Spec[Program]{
+func c13Spec() vprop.Spec[Program] {
+	return vprop.Spec[Program]{
 		ID:    "C13",
 		Gen:   genProgram,
 		Check: checkProgram,
-	})
+	}
 }
+
+func TestC13(t *testing.T) { vprop.Run(t, c13Spec()) }
+
+// FuzzC13 is the byte-driven arm (thorough tier), see vprop.Fuzz.
+func FuzzC13(f *testing.F) { vprop.Fuzz(f, c13Spec()) }
